@@ -192,7 +192,8 @@ def handle (input impl : Json) : R Reply := do
     infoTag "proposal-expired" "expired-proposals-fed" ++
     infoTag "empty-round-at-window-start" "script:empty-round-at-window-start" ++
     infoTag "same-work-candidates-again" "script:same-work-candidates-again" ++
-    infoTag "same-head-reorg" "script:same-head-reorg" ++ infoTag "tail-corrected" "script:history-tail-corrected"
+    infoTag "same-head-reorg" "script:same-head-reorg" ++ infoTag "tail-corrected" "script:history-tail-corrected" ++
+    (if (info.get? "distinct-ids-in-window").getD 0 > 16384 then ["script:>2^14-work-ids-in-one-window"] else [])
   let nontrivial := c.nodes.any (fun n => decide (n.view.staged.length ≥ 2))
   pure { agree := agree, specModel := sm, specImpl := si, diff := diff, fail := fail,
          nontrivial := nontrivial, tags := tags }
